@@ -190,7 +190,11 @@ where
 
     /// Place the LoRa physical layer in standby mode
     pub async fn enter_standby(&mut self) -> Result<(), RadioError> {
-        self.radio_kind.set_standby().await
+        // Wake the chip first if it sleeps, and keep track of the mode it is left in.
+        self.radio_kind.ensure_ready(self.radio_mode).await?;
+        self.radio_kind.set_standby().await?;
+        self.radio_mode = RadioMode::Standby;
+        Ok(())
     }
 
     /// Apply a new LoRa sync word to the chip.
@@ -314,6 +318,8 @@ where
     /// use [`LoRa::prepare_for_rx`].
     pub async fn rx_switch_channel(&mut self, frequency_in_hz: u32) -> Result<(), RadioError> {
         if let RadioMode::Receive(listen_mode) = self.radio_mode {
+            // In duty-cycle reception the chip may be in its sleep phase.
+            self.radio_kind.ensure_ready(self.radio_mode).await?;
             self.radio_kind.set_standby().await?;
             self.radio_kind.set_channel(frequency_in_hz).await?;
             self.radio_kind.do_rx(listen_mode).await
@@ -326,6 +332,8 @@ where
     /// Call [`LoRa::complete_rx`] to wait and handle result.
     pub async fn start_rx(&mut self) -> Result<(), RadioError> {
         if let RadioMode::Receive(listen_mode) = self.radio_mode {
+            // A restart during duty-cycle reception may find the chip in its sleep phase.
+            self.radio_kind.ensure_ready(self.radio_mode).await?;
             self.radio_kind.do_rx(listen_mode).await
         } else {
             Err(RadioError::InvalidRadioMode)
